@@ -26,6 +26,7 @@ DEC_fn = z3.Function('dec', StrS, StrS)                # inflation of a complete
 ZVALID_fn = z3.Function('zvalid', StrS, BoolS)         # the string is a complete, valid zlib stream
 ZEROS_fn = z3.Function('zeros', IntS, StrS)            # b'\0' * n
 INTSTR_fn = z3.Function('int_to_str', IntS, StrS)
+STRINT_fn = z3.Function('str_to_int', StrS, IntS)
 RATIO_fn = z3.Function('ratio', IntS, IntS, IntS)      # abstract (rounded) real division, only compared
 
 
@@ -136,19 +137,19 @@ def intstr_term(n):
     if c is not None:
         return z3.StringVal(str(c))
     t = INTSTR_fn(n.t)
-    reg = vc.ghost.setdefault('__intstr_terms__', [])
-    for e in reg:
-        if e.eq(t):
-            return t
-    for e in reg:
-        vc.solver.add((e == t) == (e.children()[0] == n.t))
+    reg = vc.ghost.setdefault('__intstr_terms__', set())
+    if t.get_id() in reg:
+        return t
+    reg.add(t.get_id())
+    vc.ghost.setdefault('__intstr_keep__', []).append(t)
+    # injective, through its inverse (one axiom per ground term)
+    vc.solver.add(STRINT_fn(t) == n.t)
     vc.solver.add(z3.Length(t) > 0)
     vc.solver.add(z3.Not(z3.Contains(t, z3.StringVal('.'))))
     vc.solver.add(z3.Not(z3.Contains(t, z3.StringVal('/'))))
     for lit in (-1, 0, 1):
         vc.solver.add((t == z3.StringVal(str(lit))) == (n.t == lit))
     vc.solver.add(z3.PrefixOf(z3.StringVal('-'), t) == (n.t < 0))
-    reg.append(t)
     return t
 
 
@@ -240,6 +241,30 @@ class SetIterModel:
         x = vc.fresh_key('x')
         vc.assume(self.s.has(x))
         vc.assume(b_not(ghost['done'].has(x)))
+        return x, {'done': ghost['done'].add(x), 'all': self.s}
+
+    def finish(self, vc, ghost):
+        vc.assume(ghost['done'] == self.s)
+
+
+class ElemsIterModel:
+    """for x in L, L an abstract list described by the set of its elements: elements come in any order, possibly
+    repeated, and all of them are visited.  ghost `done` = elements visited so far."""
+
+    def __init__(self, s):
+        self.s = s
+
+    def start(self, vc):
+        return {'done': SSet.empty(), 'all': self.s}
+
+    def havoc(self, vc, ghost):
+        d = SSet.fresh('done')
+        vc.assume(d.subset(self.s))
+        return {'done': d, 'all': self.s}
+
+    def step(self, vc, ghost):
+        x = vc.fresh_key('x')
+        vc.assume(self.s.has(x))
         return x, {'done': ghost['done'].add(x), 'all': self.s}
 
     def finish(self, vc, ghost):
@@ -1214,6 +1239,8 @@ class DecompObj:
         Z = SBytes.of(self.Z)
         D = dec(True, Z)
         ml = SInt.of(max_length)
+        # ghost (C18): has any call asked for unbounded output?
+        self.unbounded_calls = b_or(SBool.of(getattr(self, 'unbounded_calls', False)), ml <= 0)
         n1 = SInt.fresh('consumed')
         vc.assume(b_and(n1 >= 0, n1 <= c.length()))
         new_inp = _cat(SBytes, self.inp, c.slice(0, n1))
